@@ -211,7 +211,7 @@ def template_doc(rng: random.Random, props: bool) -> str:
     rng.shuffle(parts)
     # references to tables defined later are fine; enums must not matter for order either
     sep = rng.choice(["\n\n", "\n", "\n\n\n"])
-    head = "// first\tline\twith tabs\n" if rng.random() < 0.12 else ""
+    head = rng.choice(["", "  ", "     "]) + "// first\tline\twith tabs\n" if rng.random() < 0.15 else ""
     return head + sep.join(parts) + rng.choice(["", "\n", "\n\n"])
 
 
@@ -298,6 +298,7 @@ def build_corpus(seed: int, n_templates: int, max_bytes: int) -> List[Dict[str, 
     # coverage measurement of 10.6 showed which parse actions the seeded templates never reached
     docs.insert(len([d for d in docs if d[0].startswith("repo:")]), ("tmpl-tour", TOUR))
     docs.append(("tour-dup-in-group", TOUR.replace("  s1.things\n  other\n", "  s1.things\n  other\n  T\n")))
+    docs.append(("indented-first-line-tabs", "   // cata\tlogue of\tthings\nTable t {\n  id int [note: 'x\ty']\n}\n"))
     docs.append(("tabs-first-line", "// customers\t(master\tdata)\nTable \"cu\tst\" {\n\tid int [note: 'a\tb']\n\tn varchar\n}\n"))
     docs.append(("m2m-twice", "Table authors {\n  id int [pk]\n  alt_id int\n}\n\nTable books {\n  id int [pk]\n  alt_id int\n}\n\n"
                  "Ref: authors.id <> books.id\n\nRef: authors.alt_id <> books.alt_id\n\nRef: books.id <> authors.alt_id\n"))
